@@ -773,7 +773,6 @@ def _int_general_unit(U, xdim):
         if kwargs or not X.is_vec(xv, 'rvec'):
             raise M.ContractMismatch('func_int_general(): basis_func is not called with one 1-D array of nodes')
         t = BF(xv.t, Z(xv.shape[0]))
-        s.assume(T.rows(t) == Z(xv.shape[0]), T.cols(t) == Z(xv.shape[0]))          # documented contract of the callback, square case
         s.ghost['bf_calls'] = s.ghost.get('bf_calls', []) + [xv]
         return M.mk_mat(t)
 
@@ -802,7 +801,9 @@ def _int_general_unit(U, xdim):
     ex.functt_lsq = True
     st.vars.update(Y=Y, X=Xv, basis_func=VFunc('basis_func', basis_func), rcond=rc)
     sizes = z3.ForAll([t_], z3.Implies(z3.And(0 <= t_, t_ < d), T.d1(Ya[t_]) == L), patterns=[Ya[t_]])
-    res = U.run(ex, st, pre=[T.wf(Ya, d), L >= 1, sizes])
+    xa = z3.Const('x!any', RA)
+    bf_contract = z3.ForAll([xa], z3.And(T.rows(BF(xa, L)) == L, T.cols(BF(xa, L)) == L), patterns=[BF(xa, L)])    # documented contract of the callback (square case)
+    res = U.run(ex, st, pre=[T.wf(Ya, d), L >= 1, sizes, bf_contract])
     U.cover('precondition-satisfiable', U.pre, axioms=AXL)
     t0 = z3.Int('t0')
     for p, o in res:
